@@ -7,7 +7,9 @@
 //	         Encode/Decode, foreign session / curve rejection
 //	hist     session HISTORIES in one process: 2..4 sessions (same / different
 //	         curves) interleaved in every kind of order, every message consumed
-//	         in memory and through bytes at later points; the whole process
+//	         in memory and through bytes at later points, with FAILING steps in
+//	         between (random source of a round fails at a seeded byte offset,
+//	         foreign / mutated message) and their retries; the whole process
 //	         state observed after every step and compared with the pure model
 //	circuit  the embedded circuit against crypto/sha256 (validation)
 package main
